@@ -794,7 +794,7 @@ pub fn run_c07_c08(prop: &str) {
     let mut caps = vec![];
     let mut configs = 0u64;
     let hots: Vec<usize> = if thorough { vec![255, 254, 128, 9] } else { vec![255] };
-    let incs: Vec<usize> = if thorough { vec![0, 1, 2, 16] } else { vec![2, 16] };
+    let incs: Vec<usize> = if thorough { vec![0, 1, 2, 16] } else { vec![0, 2, 16] };
     let timeouts: Vec<u64> = if thorough { vec![60, 0, 1_000_000_000] } else { vec![60, 0] };
     let depth: usize = std::env::var("VERIF_DEPTH").ok().and_then(|v| v.parse().ok()).unwrap_or(if thorough { 4 } else { 3 });
     let depth = if with_c08 { depth - 1 } else { depth };
@@ -817,6 +817,10 @@ pub fn run_c07_c08(prop: &str) {
             for to in &timeouts {
                 for seed in seeds(*inc) {
                     if with_c08 && !thorough && *to == 0 {
+                        continue;
+                    }
+                    // quick tier: the limit 0 (no incoming node admitted at all) with one timeout only
+                    if !thorough && *inc == 0 && (*to == 0 || with_c08) {
                         continue;
                     }
                     let cfg = TCfg { hot: *hot, max_incoming: *inc, timeout_s: *to, seed: seed.clone() };
